@@ -126,7 +126,7 @@ func cmdCheck(args []string) int {
 		selected = append(selected, ct)
 		pkgSet[ct.Pkg] = true
 	}
-	if len(selected) == 0 {
+	if len(selected) == 0 && *prop != "C01" && *prop != "C03" {
 		fmt.Printf("no contracts serve property %q\n", *prop)
 		return 2
 	}
@@ -199,6 +199,17 @@ func cmdCheck(args []string) int {
 		}
 	}
 	sort.Strings(fnNames)
+	if *prop == "C01" || *prop == "C03" {
+		dets, trNames := v.detObligations(*prop)
+		for _, d := range dets {
+			o := &Obligation{Name: d.Name, Kind: "frame.det", Tags: d.Tags, Src: "transition closure is independent of non-consensus inputs: " + d.Detail, Goal: "true", Static: "proved", StaticDetail: d.Detail}
+			if !d.OK {
+				o.Static = "failed"
+			}
+			obls = append(obls, o)
+		}
+		fnNames = append(fnNames, trNames...)
+	}
 	tGen := time.Since(t0).Seconds() - tLoad
 	dir := *keep
 	if dir == "" {
